@@ -51,6 +51,11 @@ var c18services = [][2]string{
 
 var c18once sync.Once
 
+// c18regMu: the generator registers services while it computes the ops of some cases (whether a key is a point of a
+// service's suite is asked of the registry) and takes them away again; cases are executed by another goroutine up to 64
+// cases behind. The registry is process-wide, so a case must never run inside such a window.
+var c18regMu sync.Mutex
+
 // c18reverse: register the services in the opposite order. The second process does so: which
 // services a binary registers first is no part of a configuration file, so the identities read -
 // and the roster id - must not depend on it.
@@ -66,7 +71,7 @@ func c18setup() {
 		}
 		for _, e := range order {
 			var err error
-			fn := func(c *onet.Context) (onet.Service, error) { return nil, fmt.Errorf("verification stub") }
+			fn := c16constructor // a service that can be instantiated: ParseCothority builds a real server (op parsecoth)
 			if e[1] == "" {
 				_, err = onet.RegisterNewService("c18"+e[0], fn)
 			} else {
@@ -169,6 +174,16 @@ func c18devFull() bool {
 		c18devFullOK = werr != nil
 	})
 	return c18devFullOK
+}
+
+// c18quoteKey: a TOML key, quoted when it is not a bare key
+func c18quoteKey(k string) string {
+	for _, ch := range k {
+		if !(ch >= 'a' && ch <= 'z' || ch >= 'A' && ch <= 'Z' || ch >= '0' && ch <= '9' || ch == '_' || ch == '-') {
+			return c18quote(k)
+		}
+	}
+	return k
 }
 
 func c18noteSig(note string) string {
@@ -504,6 +519,8 @@ func c18preambleOps() []string {
 
 func c18exec(c *h.Ctx, cs *h.Case) {
 	c18setup()
+	c18regMu.Lock()
+	defer c18regMu.Unlock()
 	dir := c.Workdir
 	if dir == "" {
 		dir = os.TempDir()
@@ -559,7 +576,7 @@ func c18exec(c *h.Ctx, cs *h.Case) {
 			if !ok || nme == "" {
 				break
 			}
-			fn := func(c *onet.Context) (onet.Service, error) { return nil, fmt.Errorf("verification stub") }
+			fn := c16constructor // a service that can be instantiated: ParseCothority builds a real server (op parsecoth)
 			var err error
 			if tk[3] == "-" {
 				_, err = onet.RegisterNewService(nme, fn)
@@ -806,6 +823,70 @@ func c18exec(c *h.Ctx, cs *h.Case) {
 			obs = first
 			lastHC, lastPrivate = hc, first
 			outs = append(outs, "private:"+c18class(first))
+		case len(tk) == 2 && tk[1] == "parsecoth":
+			// app.ParseCothority on the text of the last `private` op: LoadCothority + suites.Find + GetServerIdentity,
+			// then a real server (listener on 127.0.0.1:0, database below the work directory) is built for that
+			// identity. The identity the server runs with must be the one GetServerIdentity gave.
+			if lastHC == nil || !haveText {
+				break
+			}
+			if !strings.Contains(text, "127.0.0.1:0\"") || (lastHC.WebSocketTLSCertificate != "" && lastHC.WebSocketTLSCertificateKey != "") {
+				obs = "bad-text" // the listener must be able to bind; certificates are not generated
+				break
+			}
+			// a service registered with a suite needs its key pair in the configuration: the server exits otherwise
+			// (log.Fatal in newServiceManager) - predicted here, never run
+			if si0, err := lastHC.GetServerIdentity(); err == nil {
+				missing := ""
+				for _, nme := range onet.ServiceFactory.RegisteredServiceNames() {
+					if onet.ServiceFactory.Suite(nme) != nil && !si0.HasServiceKeyPair(nme) {
+						missing = nme
+					}
+				}
+				if missing != "" {
+					obs = "fatal"
+					outs = append(outs, "parsecoth:fatal")
+					break
+				}
+			}
+			file := newFile(".private.toml")
+			c18ensure(file, text)
+			dbdir := filepath.Join(dir, fmt.Sprintf("c18db-%d", os.Getpid()))
+			os.MkdirAll(dbdir, 0700)
+			os.Setenv("CONODE_SERVICE_PATH", dbdir)
+			func() {
+				defer func() {
+					if r := recover(); r != nil {
+						obs = "panic"
+						c.Count("parsecoth panic: " + strings.SplitN(fmt.Sprint(r), "\n", 2)[0])
+					}
+				}()
+				hc2, srv, err := app.ParseCothority(file)
+				if err != nil {
+					obs = "err"
+					if srv != nil {
+						srv.Close()
+					}
+					return
+				}
+				d, _ := c18dump([]*network.ServerIdentity{srv.ServerIdentity})
+				obs = d
+				si2, err2 := hc2.GetServerIdentity()
+				srv.Close()
+				switch {
+				case d != lastPrivate:
+					cs.Fail("parsecothority-differs", fmt.Sprintf("the server ParseCothority builds runs with another identity than LoadCothority + GetServerIdentity give for the same file:\n%s\n%s", lastPrivate, d))
+				case err2 != nil:
+					cs.Fail("parsecothority-differs", "the configuration ParseCothority returns cannot be converted again: "+err2.Error())
+				default:
+					if d2, _ := c18dump([]*network.ServerIdentity{si2}); d2 != d {
+						cs.Fail("parsecothority-differs", fmt.Sprintf("the configuration ParseCothority returns converts to another identity than the server's:\n%s\n%s", d, d2))
+					}
+				}
+			}()
+			os.Remove(file)
+			os.RemoveAll(dbdir)
+			outs = append(outs, "parsecoth:"+c18class(obs))
 		case len(tk) == 4 && tk[1] == "resave":
 			// file-system history: the path already holds something (history), the configuration that
 			// was loaded is saved there, the file is read n times. The file after Save is the saved
@@ -1662,6 +1743,7 @@ func c18generate(c *h.Ctx, yield func(*h.Case)) {
 		yield(cs)
 	}
 	resaveHistory := "" // histories of the resave ops appended to the next private case
+	parseNext := false  // the next private case also goes through app.ParseCothority (a real server is built)
 	emitPrivate := func(class, text string, reads int, child bool) {
 		op, ok := c18privateOp(text, reads, child)
 		if !ok {
@@ -1670,7 +1752,7 @@ func c18generate(c *h.Ctx, yield func(*h.Case)) {
 		}
 		cs := &h.Case{Class: class}
 		cs.Ops = append(cs.Ops, pre...)
-		if bad, ok := c18badPrivate(text); ok && (textLevel || (resaveHistory == "" && g.r.Intn(3) == 0)) {
+		if bad, ok := c18badPrivate(text); ok && !parseNext && (textLevel || (resaveHistory == "" && g.r.Intn(3) == 0)) {
 			cs.Class = "text:" + class
 			cs.Ops = append(cs.Ops, "c18 text "+c18hex(text), fmt.Sprintf("c18 readprivtext %d %s %s", reads, c18b(child), bad), "c18 savetext "+bad)
 			if g.r.Intn(2) == 0 {
@@ -1681,6 +1763,11 @@ func c18generate(c *h.Ctx, yield func(*h.Case)) {
 			return
 		}
 		cs.Ops = append(cs.Ops, "c18 text "+c18hex(text), op)
+		if parseNext {
+			cs.Ops = append(cs.Ops, "c18 parsecoth")
+			c.Count("op=parsecoth")
+			parseNext = false
+		}
 		if resaveHistory != "" {
 			for _, hh := range strings.Split(resaveHistory, ",") {
 				cs.Ops = append(cs.Ops, fmt.Sprintf("c18 resave %s %d", hh, 4))
@@ -1733,6 +1820,62 @@ func c18generate(c *h.Ctx, yield func(*h.Case)) {
 				}
 				emitPrivate("corpus-url-derivation", t, 4, false)
 			}
+		}
+		// app.ParseCothority: the same file through the reader that also builds the server (listener on a free port)
+		for i := 0; i < b7Pick(c, 40, 300) && !b7SearchOver(); i++ {
+			k := g.key("Ed25519")
+			pub, t1 := g.mangle(k.pub, 12, false)
+			priv, t2 := g.mangle(k.priv, 12, true)
+			fields := []string{"Public = " + c18quote(pub), "Private = " + c18quote(priv),
+				"Address = " + c18quote(g.pick("tcp://127.0.0.1:0", "tls://127.0.0.1:0"))}
+			switch g.r.Intn(8) {
+			case 0: // no suite entry: Ed25519
+			case 1:
+				fields = append(fields, "Suite = \"ed25519\"")
+			case 2:
+				fields = append(fields, "Suite = \"Foo\"")
+			default:
+				fields = append(fields, "Suite = \"Ed25519\"")
+			}
+			if g.r.Intn(2) == 0 {
+				fields = append(fields, "Description = "+c18quote(g.description()))
+			}
+			if g.r.Intn(3) == 0 {
+				fields = append(fields, "URL = "+c18quote(g.pick("http://example.org:80", "https://a.b", "")))
+			}
+			if g.r.Intn(3) == 0 {
+				fields = append(fields, "ListenAddress = "+c18quote(g.pick("", "127.0.0.1:0")))
+			}
+			switch g.r.Intn(4) { // never certificate and key together: no certificates are generated
+			case 0:
+				fields = append(fields, "WebSocketTLSCertificateKey = \"string://key\"")
+			case 1:
+				fields = append(fields, "WebSocketTLSCertificate = \"string://cert\"")
+			}
+			g.r.Shuffle(len(fields), func(a, b int) { fields[a], fields[b] = fields[b], fields[a] })
+			// key pairs for the services registered with a suite, in a random order of the tables (one is left out now
+			// and then: the server would refuse to start)
+			var tabs []string
+			skip := -1
+			if g.r.Intn(8) == 0 {
+				skip = g.r.Intn(len(c18services))
+			}
+			for j, e := range c18services {
+				if e[1] == "" || j == skip {
+					continue
+				}
+				ks := g.key(e[1])
+				tabs = append(tabs, fmt.Sprintf("[Services.%s]\n  Public = \"%s\"\n  Private = \"%s\"\n  Suite = \"%s\"\n", c18quoteKey("c18"+e[0]), ks.pub, ks.priv, e[1]))
+			}
+			g.r.Shuffle(len(tabs), func(a, b int) { tabs[a], tabs[b] = tabs[b], tabs[a] })
+			svc := strings.Join(tabs, "")
+			parseNext = true
+			cl := "parsecothority"
+			if t1+t2 != "" {
+				cl += ":malformed-key"
+			}
+			emitPrivate(cl, strings.Join(fields, "\n")+"\n"+svc, 2, false)
+			parseNext = false
 		}
 		// a big group (the order of the identities is the order of the file, whatever the size)
 		g.forceN = 12
@@ -1852,7 +1995,8 @@ func c18generate(c *h.Ctx, yield func(*h.Case)) {
 			for _, j := range perm[:1+g.r.Intn(4)] {
 				names = append(names, fmt.Sprintf("%s%d", odd[j], i))
 			}
-			stub := func(c *onet.Context) (onet.Service, error) { return nil, fmt.Errorf("verification stub") }
+			stub := c16constructor
+			c18regMu.Lock()
 			for j, nme := range names {
 				onet.RegisterNewServiceWithSuite(nme, suites.MustFind([]string{"Ed25519", "P256"}[j%2]), stub)
 			}
@@ -1870,6 +2014,7 @@ func c18generate(c *h.Ctx, yield func(*h.Case)) {
 			for _, nme := range names {
 				onet.UnregisterService(nme)
 			}
+			c18regMu.Unlock()
 			if !ok {
 				continue
 			}
@@ -1903,7 +2048,8 @@ func c18generate(c *h.Ctx, yield func(*h.Case)) {
 		}
 		// the services exist while the ops are generated (whether a key is a point of a service's suite is
 		// asked of the registry), and are taken away again before the case is handed out
-		stub := func(c *onet.Context) (onet.Service, error) { return nil, fmt.Errorf("verification stub") }
+		stub := c16constructor
+		c18regMu.Lock()
 		for i := range names {
 			if sus[i] == "" {
 				onet.RegisterNewService(names[i], stub)
@@ -1911,11 +2057,17 @@ func c18generate(c *h.Ctx, yield func(*h.Case)) {
 				onet.RegisterNewServiceWithSuite(names[i], suites.MustFind(sus[i]), stub)
 			}
 		}
-		defer func() {
-			for _, nme := range names {
-				onet.UnregisterService(nme)
+		windowOpen := true
+		closeWindow := func() {
+			if windowOpen {
+				for _, nme := range names {
+					onet.UnregisterService(nme)
+				}
+				c18regMu.Unlock()
+				windowOpen = false
 			}
-		}()
+		}
+		defer closeWindow()
 		extra := fmt.Sprintf("c18t%dxnew", churnSeq)
 		victim := 2 + g.r.Intn(5) // unregistered in the middle of the batch: not the first, not the last
 		var used []int
@@ -1983,6 +2135,7 @@ func c18generate(c *h.Ctx, yield func(*h.Case)) {
 		}
 		cs.Ops = append(cs.Ops, "c18 regdel "+c18hex(extra), "c18 regdel "+c18hex(extra))
 		c.Count("kind=registry-history")
+		closeWindow() // before the case is handed out: yield blocks when the executor is 64 cases behind
 		yield(cs)
 	}
 	for i := 0; i < b7Pick(c, 24, 120) && !b7SearchOver(); i++ {
